@@ -28,3 +28,24 @@ for pid in args:
         m['origin'] = 'written by an independent sub-agent that saw only the property text and a scratch worktree'
         json.dump(m, open(os.path.join(dst, 'meta.json'), 'w'), indent=1)
         print('imported', dst)
+
+# benign (property-preserving) changes: seeded/benign/<ID>-<k>/
+for pid in args:
+    d = prefix + pid
+    for k in (1, 2, 3):
+        diff, demo, meta = [os.path.join(d, n % k) for n in ('benign%d.diff', 'benigndemo%d.py', 'benign%d.json')]
+        if not (os.path.exists(diff) and os.path.exists(demo) and os.path.exists(meta)):
+            continue
+        dst = os.path.join(VERIF, 'seeded', 'benign', '%s-%d' % (pid, k))
+        os.makedirs(dst, exist_ok=True)
+        shutil.copy(diff, os.path.join(dst, 'patch.diff'))
+        text = open(demo).read()
+        if d in text:
+            text = text.replace(d + '/', './').replace(d, '.')
+        open(os.path.join(dst, 'demo.py'), 'w').write(text)
+        m = json.load(open(meta))
+        m['property'] = pid
+        m['kind'] = 'benign'
+        m['origin'] = 'written by an independent sub-agent that saw only the property text and a scratch worktree'
+        json.dump(m, open(os.path.join(dst, 'meta.json'), 'w'), indent=1)
+        print('imported', dst)
